@@ -3,7 +3,12 @@
 correspondence: generated schemas (2-4 classes created dynamically, private registry each, 0-3 foreign keys per
 class with every cascade setting, self references, related joins declared from one or both sides) x populations
 of <= 6 rows x every victim, run through the real `destroySelf` on in-memory SQLite (cached and cache=False
-connections) and through the Lean model driver (`drv_c12`); compared: outcome (ok / Integrity / RecursionError),
+connections) and through the Lean model driver (`drv_c12`); two further scenarios go through the same pipeline:
+'tx' (file-backed SQLite in a mkdtemp directory: rows loaded and held through the parent connection, the victim destroyed
+through `conn.transaction()` + commit, everything observed on the parent: get(id) of every closure member must raise
+SQLObjectNotFound and the held parent instances must not answer) and 'evolve' (the classes are used, one destroySelf per
+class, then a ForeignKey / RelatedJoin is added at run time with sqlmeta.addColumn(changeSchema=True) / addJoin, the tables
+are repopulated and the victim destroyed); compared: outcome (ok / Integrity / RecursionError),
 full dump of every table and link table, and which of the original ids `get` still returns.
 oracle: an independent Python computation of the property's wording on the dumped tables (cascade closure,
 set-null, link rows, restriction), compared with what the real code left behind.
@@ -34,7 +39,9 @@ META = {
                 'no part of destroySelf is table-like data, so nothing is extracted: the tie is the differential run (5 streams, every case)'],
     'modelled': ['SQLite engine (DELETE / UPDATE / lazy cursor of the dependent select; executed, not verified)',
                  'Python recursion limit modelled as fuel; weakref/GC of cached instances not modelled (instances are held by the harness)'],
-    'assumptions': ['classes live in one registry and are plain SQLObject classes (no InheritableSQLObject, no per-connection instances)',
+    'assumptions': ['the transaction scenario has no Lean model of Transaction.commit: the model answer used for it is the plain destroySelf '
+                    'result (what the parent must show after commit); what decides it is the oracle (NotFound for every closure member)',
+                    'classes live in one registry and are plain SQLObject classes (no InheritableSQLObject, no per-connection instances)',
                     'foreign keys hold ids of the target class or NULL; SQLite foreign-key enforcement is off (the default)'],
     'exhaustive': False,
 }
@@ -49,54 +56,121 @@ K_INSIDE = 'C12:restrict-reference-from-inside-closure-not-refused'
 _built = {}
 
 
-def build(classes, cached):
+_tmpdir = []
+
+
+def scratch_dir():
+    """file-backed SQLite databases live outside /repo and /verif and are removed at exit"""
+    if not _tmpdir:
+        import atexit
+        import shutil
+        import tempfile
+        _tmpdir.append(tempfile.mkdtemp(prefix='verif_c12_'))
+        atexit.register(shutil.rmtree, _tmpdir[0], True)
+    return _tmpdir[0]
+
+
+def join_def(k, jx, o, t, own):
+    from sqlobject import RelatedJoin, SQLRelatedJoin
+    J = RelatedJoin if (jx + k + t) % 2 == 0 else SQLRelatedJoin
+    return J(NAMES[o], intermediateTable='lt%d' % t, joinColumn='ca' if own else 'cb',
+             otherColumn='cb' if own else 'ca', createRelatedTable=False)
+
+
+def base_of(case):
+    """schema / rows before the run-time addition of an 'evolve' case (the late item is the last of its class)"""
+    late = case['late']
+    classes = json.loads(json.dumps(case['classes']))
+    kind = 'fks' if 'fk' in late else 'joins'
+    classes[late['cls']][kind].pop()
+    rows = [[c, i, vals[:len(classes[c]['fks'])]] for c, i, vals in case['rows']]
+    tables = {t for cd in classes for o, t, own in cd['joins']}
+    links = [l for l in case['links'] if l[0] in tables]
+    return classes, rows, links
+
+
+def build(classes, cached, mode='plain', case=None):
     """create (once) the real classes of a schema on a private connection and registry"""
-    key = (json.dumps(classes), cached)
+    key = (json.dumps(classes), cached, mode, json.dumps(case['late']) if mode == 'evolve' else None)
     if key in _built:
         return _built[key]
     sqlo.setup()
-    from sqlobject import SQLObject, ForeignKey, RelatedJoin, SQLRelatedJoin
+    from sqlobject import SQLObject, ForeignKey
     reg = sqlo.uniq('c12reg')
-    conn = sqlo.mem_conn(cache=cached)
+    if mode == 'tx':
+        conn = sqlo.file_conn(os.path.join(scratch_dir(), sqlo.uniq('db') + '.sqlite'), cache=cached)
+    else:
+        conn = sqlo.mem_conn(cache=cached)
+    decl = classes
+    if mode == 'evolve':
+        decl, base_rows, base_links = base_of(case)
     out = []
     tables = set()
-    for k, cd in enumerate(classes):
+    for k, cd in enumerate(decl):
         d = {'sqlmeta': type('sqlmeta', (), {'registry': reg}), '_connection': conn}
         for f, (t, p) in enumerate(cd['fks']):
             d['f%d' % f] = ForeignKey(NAMES[t], cascade=POL[p], default=None)
         for jx, (o, t, own) in enumerate(cd['joins']):
-            J = RelatedJoin if (jx + k + t) % 2 == 0 else SQLRelatedJoin
-            d['j%d' % jx] = J(NAMES[o], intermediateTable='lt%d' % t,
-                              joinColumn='ca' if own else 'cb', otherColumn='cb' if own else 'ca',
-                              createRelatedTable=False)
+            d['j%d' % jx] = join_def(k, jx, o, t, own)
             tables.add(t)
         out.append(type(NAMES[k], (SQLObject,), d))
     for cls in out:
         cls.createTable()
     for t in sorted(tables):
         conn.query('CREATE TABLE lt%d (ca INT, cb INT)' % t)
+    if mode == 'evolve':
+        # schema evolution: use the classes (one destroySelf per class, so that anything remembered about the
+        # dependency graph is remembered), then add a foreign key / related join at run time
+        late = case['late']
+        fill(conn, out, sorted(tables), base_rows, base_links)
+        for k, cls in enumerate(out):
+            for c, i, vals in base_rows:
+                if c == k:
+                    try:
+                        cls.get(i).destroySelf()
+                    except Exception:
+                        pass
+                    break
+        k = late['cls']
+        if 'fk' in late:
+            t, p = late['fk']
+            f = len(decl[k]['fks'])
+            out[k].sqlmeta.addColumn(ForeignKey(NAMES[t], name='f%d' % f, cascade=POL[p], default=None), changeSchema=True)
+        else:
+            o, t, own = late['join']
+            jd = join_def(k, len(decl[k]['joins']), o, t, own)
+            jd.joinMethodName = 'j%d' % len(decl[k]['joins'])
+            out[k].sqlmeta.addJoin(jd)
+            if t not in tables:
+                tables.add(t)
+                conn.query('CREATE TABLE lt%d (ca INT, cb INT)' % t)
     if len(_built) > 400:
         _built.clear()
     _built[key] = (conn, out, sorted(tables))
     return _built[key]
 
 
-def populate(case):
-    conn, classes, tables = build(case['classes'], case['cache'])
+def fill(conn, classes, tables, rows, links):
     for cls in classes:
         conn.query('DELETE FROM %s' % cls.sqlmeta.table)
     for t in tables:
         conn.query('DELETE FROM lt%d' % t)
     conn.cache.clear()
     objs = {}
-    for c, i, vals in case['rows']:
+    for c, i, vals in rows:
         objs[(c, i)] = classes[c](id=i)
-    for c, i, vals in case['rows']:
+    for c, i, vals in rows:
         kw = {'f%dID' % f: v for f, v in enumerate(vals) if v is not None}
         if kw:
             objs[(c, i)].set(**kw)
-    for t, a, b in case['links']:
+    for t, a, b in links:
         conn.query('INSERT INTO lt%d (ca, cb) VALUES (%d, %d)' % (t, a, b))
+    return objs
+
+
+def populate(case):
+    conn, classes, tables = build(case['classes'], case['cache'], case.get('mode', 'plain'), case)
+    objs = fill(conn, classes, tables, case['rows'], case['links'])
     return conn, classes, tables, objs
 
 
@@ -115,15 +189,24 @@ def dump(case, conn, classes, tables):
 
 
 def run_impl(case):
-    """-> (outcome, rows, links, reachable keys, stale) after destroySelf of the victim on the real code"""
+    """-> (outcome, rows, links, reachable keys, stale) after destroySelf of the victim on the real code.
+    mode 'tx': the victim is fetched and destroyed through `conn.transaction()`, committed; everything is then
+    observed on the parent connection, whose instances were loaded before and are still held."""
     import sqlobject
     conn, classes, tables, objs = populate(case)
+    mode = case.get('mode', 'plain')
     vc, vi = case['victim']
     limit = sys.getrecursionlimit()
+    tx = None
     try:
         sys.setrecursionlimit(400)   # a cascade cycle recurses for ever; 400 frames are as good as 1000
         try:
-            classes[vc].get(vi).destroySelf()
+            if mode == 'tx':
+                tx = conn.transaction()
+                victim = classes[vc].get(vi, connection=tx)
+            else:
+                victim = classes[vc].get(vi)
+            victim.destroySelf()
             outcome = 'ok'
         except sqlobject.main.SQLObjectIntegrityError:
             outcome = 'refused'
@@ -131,6 +214,14 @@ def run_impl(case):
             outcome = 'fuel'
         except Exception as e:  # any other exception of the real code is an observable outcome
             outcome = 'error:' + sqlo.exc_name(e)
+        if tx is not None:
+            try:
+                if outcome == 'ok':
+                    tx.commit(close=True)
+                else:
+                    tx.rollback()
+            except Exception as e:
+                outcome = 'error:commit:' + sqlo.exc_name(e)
     finally:
         sys.setrecursionlimit(limit)
     rows, links = dump(case, conn, classes, tables)
@@ -138,6 +229,16 @@ def run_impl(case):
     stale = []
     rowmap = {(c, i): vals for c, i, vals in rows}
     for (c, i) in sorted(objs):
+        nf = len(case['classes'][c]['fks'])
+        if mode == 'tx' and (c, i) not in rowmap and nf:
+            # an instance of a destroyed row, held by the parent connection's user, must not answer
+            try:
+                getattr(objs[(c, i)], 'f0ID')
+                reach.append((c, i, 'held instance still answers'))
+            except sqlobject.SQLObjectNotFound:
+                pass
+            except Exception as e:
+                reach.append((c, i, 'held instance: ' + sqlo.exc_name(e)))
         try:
             o = classes[c].get(i)
         except sqlobject.SQLObjectNotFound:
@@ -146,9 +247,9 @@ def run_impl(case):
             reach.append((c, i, 'error:' + sqlo.exc_name(e)))
             continue
         reach.append((c, i))
-        if (c, i) in rowmap:
+        if (c, i) in rowmap and mode != 'tx':     # staleness of survivors across a commit is property C07's
             try:
-                seen = tuple(getattr(o, 'f%dID' % f) for f in range(len(case['classes'][c]['fks'])))
+                seen = tuple(getattr(o, 'f%dID' % f) for f in range(nf))
             except Exception as e:
                 seen = 'error:' + sqlo.exc_name(e)
             if seen != rowmap[(c, i)]:
@@ -307,13 +408,13 @@ def table_ends(classes):
     return ends
 
 
-def gen_population(rng, classes):
+def gen_population(rng, classes, zero=False):
     n = len(classes)
     total = rng.choice([2, 3, 4, 4, 5, 5, 6, 6])
     counts = [0] * n
     for _ in range(total):
         counts[rng.randrange(n)] += 1
-    ids = {k: list(range(1, counts[k] + 1)) for k in range(n)}
+    ids = {k: list(range(0 if zero else 1, counts[k] + (0 if zero else 1))) for k in range(n)}
     acyclic_bias = rng.random() < 0.7
     rows = []
     for k in range(n):
@@ -356,14 +457,55 @@ def gen_cases(ctx):
             c = dict(case)
             c['cache'] = cached
             yield c
-    nschema = ctx.budget(700, 12000)
+            if 'mode' not in c:
+                exp = oracle(c)
+                if exp[0] == 'ok' and not exp[4]['cycle']:
+                    t = dict(c)
+                    t['mode'] = 'tx'
+                    yield t
+    nschema = ctx.budget(600, 12000)
     for s in range(nschema):
         classes = gen_schema(rng)
         cached = (s % 3 != 0)
         for _ in range(2):
-            rows, links = gen_population(rng, classes)
+            rows, links = gen_population(rng, classes, zero=(s % 5 == 0))
             for c, i, vals in rows:
                 yield {'cache': cached, 'classes': classes, 'rows': rows, 'links': links, 'victim': [c, i]}
+        if s % 4 == 1:
+            # destroySelf through a transaction, observed on the parent connection (oracle expects success)
+            for c, i, vals in rows:
+                case = {'cache': cached, 'classes': classes, 'rows': rows, 'links': links, 'victim': [c, i], 'mode': 'tx'}
+                exp = oracle(case)
+                if exp[0] == 'ok' and not exp[4]['cycle'] and len(exp[4]['closure']) >= 2:
+                    yield case
+                    break
+        if s % 4 == 2:
+            for case in gen_evolved(rng, classes, cached):
+                yield case
+
+
+def gen_evolved(rng, classes, cached):
+    """a foreign key or a related join added at run time, after the classes were already used"""
+    n = len(classes)
+    k = rng.randrange(n)
+    ev = json.loads(json.dumps(classes))
+    if rng.random() < 0.75:
+        t = rng.randrange(n)
+        late = {'cls': k, 'fk': [t, rng.choice(['c', 'c', 'n', 'r'])]}
+        ev[k]['fks'].append(late['fk'])
+    else:
+        o = rng.randrange(n)
+        used = {t for cd in classes for _, t, _ in cd['joins']}
+        t = max(used) + 1 if used else 0
+        late = {'cls': k, 'join': [o, t, 1]}
+        ev[k]['joins'].append(late['join'])
+    rows, links = gen_population(rng, ev)
+    target = late['fk'][0] if 'fk' in late else late['join'][0]
+    for c, i, vals in rows:
+        # victims of the class the late reference points at, and one other
+        if c == target or rng.random() < 0.25:
+            yield {'cache': cached, 'classes': ev, 'rows': rows, 'links': links, 'victim': [c, i],
+                   'mode': 'evolve', 'late': late}
 
 
 # ------------------------------------------------------------------ judging
@@ -411,6 +553,10 @@ def judge(ctx, case, impl):
         ctx.oracle_fail('C12:rows:' + sig, 'tables after destroySelf %r, the reference graph deletion gives %r' % (rows, erows), case)
     elif links != elinks:
         ctx.oracle_fail('C12:links:' + sig, 'link tables after destroySelf %r, expected %r' % (links, elinks), case)
+    elif [tuple(x) for x in reach] != ereach and case.get('mode') == 'tx':
+        ctx.oracle_fail('C12:tx-destroyed-row-still-reachable-on-parent', 'destroySelf through a transaction + commit: on the parent '
+                        'connection get()/held instances still answer for %r, surviving rows are %r (cache=%s)'
+                        % (reach, ereach, case['cache']), case)
     elif [tuple(x) for x in reach] != ereach:
         ctx.oracle_fail('C12:reachable:' + sig, 'get() still returns %r, surviving rows are %r (cache=%s)' % (reach, ereach, case['cache']), case)
 
@@ -420,7 +566,8 @@ def initial_dump(case):
 
 
 def canon(case):
-    return model_line(case) + (' cached' if case['cache'] else ' uncached')
+    return model_line(case) + (' cached' if case['cache'] else ' uncached') + ' ' + case.get('mode', 'plain') + \
+        (json.dumps(case['late']) if case.get('late') else '')
 
 
 def nontrivial(case):
@@ -440,7 +587,7 @@ def run(ctx):
         impl = run_impl(case)
         outcome, rows, links, reach, stale = impl
         exp = oracle(case)
-        kind = '%s/%dcls/%s' % (outcome, len(case['classes']), 'cached' if case['cache'] else 'uncached')
+        kind = '%s/%dcls/%s/%s' % (outcome, len(case['classes']), 'cached' if case['cache'] else 'uncached', case.get('mode', 'plain'))
         ctx.case(canon(case), nontrivial=nontrivial(case),
                  sample={'case': case, 'impl': [outcome, rows, links, reach], 'property': exp[0]}, kind=kind)
         if exp[4]['cycle']:
